@@ -74,7 +74,7 @@ func newPool() (*Pool, error) {
 	if err != nil {
 		return nil, core.Infra("cannot find own executable: %v", err)
 	}
-	return &Pool{exe: exe, Watchdog: 20 * time.Second, PerKiB: 2 * time.Millisecond}, nil
+	return &Pool{exe: exe, Watchdog: 30 * time.Second, PerKiB: 2 * time.Millisecond}, nil
 }
 
 func (p *Pool) start() (*worker, error) {
